@@ -19,6 +19,16 @@ FnCnaryCenter    center_all after the selection: `if cnarr:` / the by_chrom disp
 FnCnaryEstimator center_all's estimator dispatch: the dict display `est_funcs`, `isinstance(estimator, str)` on a str-or-callable
                  parameter, the lookup, and the test that decides between lookup and ValueError (located with `ast`)
                                                     (C15_source_estimator_name / _callable / _known)
+FnCnaryGuess     guess_xx, the WHOLE function (optional boolean OB: `if is_xy is None: return None`, `return ~is_xy`)
+                                                                              (C15_source_guess_xx)
+FnCnaryFlatWhole expect_flat_log2, the WHOLE function incl. the default `is_haploid_x_reference = not self.guess_xx(...)`
+                                                    (C15_source_flat_whole_given, C15_source_flat_whole_guess)
+FnSexCommand     cnvlib/commands.py do_sex: strsign, guess_and_format (both nested, whole), the column names
+                                                    (C15_source_strsign, C15_source_do_sex_row, C15_source_do_sex_columns)
+
+Reading conventions used here (stated once): an object of which the code reads only the truth value is declared by
+that truth value (`cnarr`: B, a table is true when it has rows); a dict of which the code reads the truth value and
+string-keyed entries is the list of its keys (LS) plus one keyed input per entry read.
 
 Mutations tried on a scratch copy (tools/mut_fn.sh; KILLED = the named Proofs file no longer compiles, REFUSED = the
 translator refuses the module, which the check reports as a broken tie):
@@ -38,6 +48,11 @@ translator refuses the module, which the check reports as a broken tie):
   FnCnaryEstimator  "mode" mapped to biweight_location KILLED ; key "biweight" renamed "tukey" KILLED ; `if estimator in
                   est_funcs` -> `not in` KILLED (through fn_estimator_known; the lookup alone survives it, an error path being
                   outside a translated body) ; `est_funcs[estimator]` -> `est_funcs["median"]` KILLED
+  FnCnaryGuess    `return ~is_xy` -> `return is_xy` KILLED ; `if is_xy is None:` -> `is not None` REFUSED (~ on a non-boolean)
+  FnCnaryFlatWhole  `not self.guess_xx(..)` -> `self.guess_xx(..)` REFUSED (default of the optional boolean has type OB) ;
+                  `cvg[idx] = -1.0` -> `1.0` KILLED ; female-reference mask `chr_y_filter()` -> `chr_y_filter(diploid_parx_genome)` KILLED
+  FnSexCommand    "Male" / "Female" swapped KILLED ; `num > 0` -> `>=` KILLED ; the Y column printing chrx_ratio KILLED ;
+                  two column names swapped KILLED
 """
 
 _ROW = [('self.chromosome', 'S', 'chromosome'), ('self.start', 'Z', 'start'), ('self.end', 'Z', 'end_')]
@@ -170,5 +185,45 @@ MODULES = {
              py_params=['self', 'estimator', 'by_chrom', 'skip_low', 'verbose', 'diploid_parx_genome'],
              fragment=dict(first=_known_test()[1], last=_known_test()[1]),
              params=[('estimator', 'S')] + _EST, returns=[_known_test()[0]], ret='B'),
+    ]),
+    # guess_xx, the WHOLE function: the call's two results unpacked as e[0] (the optional boolean is_xy) and e[1] (the
+    # statistics dict, read as the list of its keys: only its truth value could matter, and here only the dropped log
+    # line reads it), `if is_xy is None: return None`, the log line, `return ~is_xy`.
+    'FnCnaryGuess': ('cnvlib/cnary.py', [
+        dict(name='CopyNumArray.guess_xx', coq='fn_guess_xx',
+             py_params=['self', 'is_haploid_x_reference', 'diploid_parx_genome', 'verbose'],
+             params=[('self.compare_sex_chromosomes(is_haploid_x_reference, diploid_parx_genome)[0]', 'OB', 'is_xy'),
+                     ('self.compare_sex_chromosomes(is_haploid_x_reference, diploid_parx_genome)[1]', 'LS', 'stats_keys'),
+                     ('verbose', 'B')],
+             ret='OB'),
+    ]),
+    # expect_flat_log2, the WHOLE function (the first batch's fn_expect_flat starts after the default): the default
+    # `if is_haploid_x_reference is None: is_haploid_x_reference = not self.guess_xx(..., verbose=False)` on an optional
+    # boolean, then the masks and the masked store as before.
+    'FnCnaryFlatWhole': ('cnvlib/cnary.py', [
+        dict(name='CopyNumArray.expect_flat_log2', coq='fn_expect_flat_whole',
+             py_params=['self', 'is_haploid_x_reference', 'diploid_parx_genome'],
+             params=[('is_haploid_x_reference', 'OB'),
+                     ('self.guess_xx(diploid_parx_genome=diploid_parx_genome, verbose=False)', 'OB', 'guessed_xx'),
+                     ('np.zeros(len(self), dtype=np.float64)', 'Q', 'zero'),
+                     ('self.chr_x_filter(diploid_parx_genome).values', 'B', 'on_x'),
+                     ('self.chr_y_filter(diploid_parx_genome).values', 'B', 'on_y'),
+                     ('self.chr_y_filter().values', 'B', 'on_y_all')],
+             ret='Q'),
+    ]),
+    # commands.do_sex: strsign (whole; the two `%.3g` texts are string inputs, the number may be NaN), guess_and_format
+    # (whole: the label `"Male" if is_xy else "Female"` on the optional boolean, `... if stats else "NA"` on the statistics
+    # dict read as the list of its keys, the two strsign calls and the sample name as string inputs), the column names.
+    'FnSexCommand': ('cnvlib/commands.py', [
+        dict(name='do_sex.strsign', coq='fn_strsign', py_params=['num'],
+             params=[('num', 'OQ'), ("'+%.3g' % num", 'S', 'plus_text'), ("'%.3g' % num", 'S', 'plain_text')], ret='S'),
+        dict(name='do_sex.guess_and_format', coq='fn_guess_and_format', py_params=['cna'],
+             params=[('cna.compare_sex_chromosomes(is_haploid_x_reference, diploid_parx_genome)[0]', 'OB', 'is_xy'),
+                     ('cna.compare_sex_chromosomes(is_haploid_x_reference, diploid_parx_genome)[1]', 'LS', 'stats_keys'),
+                     ("cna.meta['filename'] or cna.sample_id", 'S', 'sample'),
+                     ("strsign(stats['chrx_ratio'])", 'S', 'x_text'), ("strsign(stats['chry_ratio'])", 'S', 'y_text')],
+             ret=['S', 'S', 'S', 'S']),
+        dict(name='do_sex', coq='fn_do_sex_columns', py_params=['cnarrs', 'is_haploid_x_reference', 'diploid_parx_genome'],
+             fragment=dict(first='columns = [', last='columns = ['), params=[], returns=['columns'], ret='LS'),
     ]),
 }
